@@ -159,6 +159,19 @@ q("try_get_segment", "gfa")(lambda g, e: g.try_get_segment(_a_name(g, e)))
 q("select_dict", "gfa")(lambda g, e: g.select({"record_type": e.rng.choice(["S", "L", "E", "P", "O", "U", "G", "F", "C"])}))
 q("select_name", "gfa")(lambda g, e: g.select({"name": _a_name(g, e)}))
 q("select_line", "gfa")(lambda g, e: g.select(e.rng.choice(g.lines)))
+
+
+def _select_by_field(g, e):
+    """search by the real name of a field of one of the lines (sid, eid, from_segment, ...)."""
+    x = e.rng.choice(g.lines)
+    fns = [f for f in list(x.positional_fieldnames) + list(x.tagnames) if isinstance(x.get(f), (str, int))]
+    if not fns:
+        return None
+    f = e.rng.choice(fns)
+    return g.select({f: x.get(f)})
+
+
+q("select_field", "gfa")(_select_by_field)
 q("fragments_for_external", "gfa")(lambda g, e: g.fragments_for_external(e.rng.choice(list(g.external_names) + ["nosuch"])))
 q("custom_records_of_type", "gfa")(lambda g, e: g.custom_records_of_type(e.rng.choice(list(g.custom_record_keys) + ["X"])))
 q("connected_components", "gfa")(lambda g, e: g.connected_components())
